@@ -358,7 +358,7 @@ def run(ctx, replay):
         "rows = states of spec/CfgSyntax.tla enumerated by TLC: structured documents (all sequences of <= 2 of the "
         "gadgets x styles; deep-nesting and import-ladder gadgets alone), every single-piece mutation (drop / insert "
         "one of 12 pieces) of the one-gadget documents (seeded sample of 1500 in quick), every string over the "
-        "18-class byte alphabet up to length %d, the two shipped files, plus -simulate rows (documents of <= 4 gadgets "
+        "18-class byte alphabet up to length %d, the two shipped files, the file-import scenarios, plus -simulate rows (documents of <= 4 gadgets "
         "with mutation, raw strings up to 16 classes), de-duplicated by (layer, source bytes, document); rows the model "
         "marks as resource-exhausting deviations: all in thorough, 4 per deviation and document length in quick. "
         "non-trivial = distinct row whose observed outcome is not the empty tree (an error, a crash class, or a tree "
@@ -377,7 +377,9 @@ def run(ctx, replay):
     ctx.assumptions += [
         "\"every byte sequence\" is decided only inside the stated bounds: exhaustive over the 18-class alphabet up to the "
         "stated length, the gadget grammar and its single-piece mutations; beyond that seeded simulation",
-        "imports of files are outside the input space (the parser runs with a location inside an empty directory)",
+        "imports of files are explored only through the file scenarios of layer 'i' (self-import, 2- and 3-cycles, a file "
+        "introducing a snippet, chains of files with deep blocks) written by the harness into an empty directory; the "
+        "child runs with RLIMIT_NOFILE lowered to 640 so that a parser that keeps opening files ends as class 'nofile'",
         "memory exhaustion = Go heap above the cap (default 512 MB; inputs are < 20 KB) observed by an in-process "
         "watchdog, RLIMIT_AS backstop; non-termination = the process spends more than the row time-out (default 20 s) of CPU time on one row, or 15 x that of wall-clock time, confirmed by re-running the row alone",
         "well-formedness of names, macro-reference and quotability patterns are computed by the harness per character "
@@ -396,17 +398,18 @@ META = {
                  "model-checked by TLC; every generated row parsed by the real cfgparser.Read in a child process under a "
                  "memory cap and watchdog; recorded outcomes and trees evaluated by TLC against CfgSyntaxTrace.tla",
     "text": "Bounded exploration of a model-generated case space: TLC enumerates all documents of <= 2 grammar gadgets "
-            "(63 gadgets incl. breakages, macros, snippets/imports forward/backward/self, env placeholders; deep nesting "
-            "and import ladders alone) in 3 (quick) / 9 (thorough) rendering styles, all single-piece mutations of the "
+            "(67 gadgets incl. breakages, macros, snippets/imports forward/backward/self, env placeholders also inside "
+            "snippets / macro values / block headers; deep nesting, import ladders, deep snippets imported deep and the "
+            "macro-closes-block repetition alone; file-import scenarios: cycles, chains of deep files) in 3 (quick) / 9 (thorough) rendering styles, all single-piece mutations of the "
             "one-gadget documents, every string over an 18-class byte alphabet up to length 3 (quick) / 4 (thorough), the "
             "shipped files, plus seeded simulation beyond those bounds; it checks that the documented rule satisfies the "
-            "C20 predicates on every structured document, and evaluates the same predicates (no panic / time-out / memory "
-            "exhaustion, nothing unexpanded, well-formed names, bounded nesting, canonical print re-parses to the same "
+            "C20 predicates on every structured document, and evaluates the same predicates (no panic / time-out / memory or "
+            "descriptor exhaustion, nothing unexpanded, no environment placeholder left, well-formed names, bounded nesting, canonical print re-parses to the same "
             "tree, shipped files parse and their pipelines validate) on what the real parser did on every row; "
             "disagreement with the documented outcome class or tree is reported as DRIFT only.",
     "note": "\"For every byte sequence\" is decided only up to the stated length and alphabet and over the gadget grammar "
             "with single-piece mutations; outside those bounds there is only seeded simulation. Character-class and "
             "pattern facts of tokens and the canonical printer are Go code in the harness (trusted); file imports are "
-            "not explored; storage/auth/target back-ends are stubbed in the pipeline validation of the shipped files.",
+            "explored only through a handful of scenarios; storage/auth/target back-ends are stubbed in the pipeline validation of the shipped files.",
     "design_ref": "DESIGN.md section 5 C20",
 }
